@@ -171,6 +171,11 @@ class _Qap(_Backend):
         fns = [t for t in directives if t[0] == "[function]"]
         one_names = {t[2] + "/one" for t in fns}
         d["V.function_contexts_declared"] = len(fns) >= 1 and fns[0][1:] == ["main", "main"]
+        # a wire (block randomness included) has ONE value, a block ONE declaration per context
+        names = [tk[0] for tk in (_toks(rec) for rec in _records(w, "pysnark_wires")) if tk and isinstance(tk[0], str) and tk[0].endswith(":")]
+        d["V.every_wire_written_once"] = len(names) == len(set(names))
+        blks = [(t[1], t[2]) for t in directives if t[0] == "[ioblock]"]
+        d["V.block_names_unique_per_context"] = len(blks) == len(set(blks))
         # every equation is satisfied by the logged wire values
         for i, t in enumerate(eqs):
             try:
@@ -313,6 +318,21 @@ def prog():
     backend.prove()
     return out
 """, {"a": lambda c: SymInt(z3.Int("s_a")), "b": lambda c: SymInt(z3.Int("s_b"))}),
+        # an external block imported right after a sub-circuit call: auto-generated block names must not collide
+        "import_after_call": ("""
+def prog():
+    @subqap("sq")
+    def sq(v):
+        return v * v
+    runqapinput.writecomm("ext", [7, 9], 5)
+    x = PrivVal(a)
+    y = sq(x)
+    imp = backend.importcomm("ext")
+    z = sq(imp[0] + y)
+    out = z.val()
+    backend.prove()
+    return out
+""", {"a": lambda c: SymInt(z3.Int("s_a")), "runqapinput": lambda c: c.w.import_module("pysnark.qaptools.runqapinput")}),
         "scaled_and_constant_arguments": ("""
 def prog():
     @subqap("sc")
@@ -349,7 +369,7 @@ def prog():
 
     # per program: sub-circuit function -> (secret arguments, secret results, calls)
     FUNCS = {"square_twice": {"sq": (1, 1, 2)}, "inconsistent_calls": {"chk": (1, 1, 2)},
-             "no_arguments_two_results": {"gen": (0, 2, 2)}, "scaled_and_constant_arguments": {"sc": (1, 1, 3)}, "plain_and_secret_arguments": {"mix": (2, 1, 2)}}
+             "no_arguments_two_results": {"gen": (0, 2, 2)}, "scaled_and_constant_arguments": {"sc": (1, 1, 3)}, "import_after_call": {"sq": (1, 1, 2)}, "plain_and_secret_arguments": {"mix": (2, 1, 2)}}
 
     def extra(self, c, r, wires, io, eqs, directives):
         p = self.prime
